@@ -805,6 +805,9 @@ class Translator:
             if not is_literal(d):
                 fail(file, d, "parameter default is not a literal")
             defaults[p] = d
+            if style == "env" and any(isinstance(n, (ast.List, ast.Dict, ast.Set)) for n in ast.walk(d)):
+                # a mutable default argument is one object shared by every call that omits the argument
+                self.summary["mutable_literal_defaults"].append([name, p])
         for d in fd.decorator_list:
             fail(file, fd, "decorated function")
         info = {"coq": name, "params": params, "required": required, "style": style}
